@@ -347,7 +347,9 @@ func Monitor(w *plugin.World, step int) []hx.Violation {
 		cls := resClass(res)
 		if last.multi && len(last.held) == 1 {
 			st.stats["monitor:no-ranges-multi-owner-bind"]++
-			if f[5] != "-" && f[5] != fmt.Sprint(last.held[0]) {
+			// (when Bind refuses - "waiting for delete event" - nothing shows which address came first: the token is then
+			// the executor's guess, not an observation)
+			if cls == "ok" && f[5] != "-" && f[5] != fmt.Sprint(last.held[0]) {
 				st.notMin = append(st.notMin, fmt.Sprintf("step %d bind: observed first address %s, lowest address of the key is %d", step, f[5], last.held[0]))
 			}
 			if cls == "ok" {
